@@ -3318,9 +3318,11 @@ impl Value {
                 binding_map_keys,
             } = ret
             {
+                // (`has_wrap_to_string` tells the pieces form from an expression of the same shape
+                // which the user wrote: the text behind `{{ a + "x" }}` is not part of that `"x"`)
                 let need_convert = if let Expression::Plus { right, .. } = &*expression {
                     if let Expression::LitStr { .. } = &**right {
-                        false
+                        !has_wrap_to_string
                     } else {
                         true
                     }
